@@ -141,6 +141,8 @@ class Shim:
         self.probes = {}
         self.dir_order = spec.get("dir_order")  # None | "sorted" | {"seed": n}
         self.torn_fds = {}
+        self.child_tmp = os.path.dirname(oplog_path) or None
+        self.child_seq = 0
         self.pool = None  # SimPool scheduler while a pool is running
         self.log_fd = _real["open"](oplog_path, os.O_WRONLY | os.O_CREAT | os.O_TRUNC | os.O_APPEND, 0o644)
         self.clock = None
@@ -251,6 +253,8 @@ class Shim:
         import re
         for m in self.matchers:
             if m.get("kind") and m["kind"] != kind:
+                continue
+            if m.get("path") is not None and m["path"] != rel and m["path"] != rel2:
                 continue
             if m.get("path_re") and not (re.search(m["path_re"], rel) or (rel2 and re.search(m["path_re"], rel2))):
                 continue
@@ -385,8 +389,63 @@ class Shim:
             if fault is not None and fault["action"] == "childfail":
                 S.probe("childfail_fired")
                 args = ["/bin/false"]
-            return _real_popen_init(self_, args, *a, **k)
+            # Child output captured through pipes arrives in timing-dependent chunks, which perturbs
+            # the parent's heap layout and with it the iteration order of id()-hashed sets.  Capture
+            # into unnamed temporary files instead and hand the whole output over in one piece.
+            sim = {}
+            if len(a) <= 5:  # stdin/stdout/stderr given by keyword (subprocess.run, graphviz)
+                for name in ("stdout", "stderr"):
+                    if k.get(name) == subprocess.PIPE:
+                        S.child_seq += 1
+                        path = os.path.join(S.child_tmp or "/dev/shm", "fordsim-child-%d-%d-%s" % (os.getpid(), S.child_seq, name))
+                        fd = _real["open"](path, os.O_RDWR | os.O_CREAT | os.O_TRUNC, 0o600)
+                        _real["unlink"](path)
+                        sim[name] = fd
+                        k[name] = fd
+            try:
+                r = _real_popen_init(self_, args, *a, **k)
+            except BaseException:
+                for fd in sim.values():
+                    _real["close"](fd)
+                raise
+            if sim:
+                self_._fordsim_capture = sim
+            return r
         subprocess.Popen.__init__ = popen_init
+
+        real_communicate = subprocess.Popen.communicate
+
+        def communicate(self_, input=None, timeout=None):
+            sim = getattr(self_, "_fordsim_capture", None)
+            if not sim:
+                return real_communicate(self_, input, timeout)
+            if self_.stdin is not None:
+                try:
+                    if input:
+                        self_.stdin.write(input)
+                    self_.stdin.close()
+                except (BrokenPipeError, OSError, ValueError):
+                    pass
+            self_.wait(timeout)
+            res = {}
+            for name, fd in sim.items():
+                os.lseek(fd, 0, 0)
+                chunks = []
+                size = os.fstat(fd).st_size
+                data = os.read(fd, size) if size else b""
+                while len(data) < size:
+                    more = os.read(fd, size - len(data))
+                    if not more:
+                        break
+                    data += more
+                _real["close"](fd)
+                if getattr(self_, "text_mode", False):
+                    data = data.decode(getattr(self_, "encoding", None) or "utf-8", getattr(self_, "errors", None) or "strict")
+                    data = data.replace("\r\n", "\n").replace("\r", "\n")
+                res[name] = data
+            self_._fordsim_capture = None
+            return (res.get("stdout"), res.get("stderr"))
+        subprocess.Popen.communicate = communicate
 
     def finish(self):
         try:
